@@ -236,3 +236,45 @@ func LongTailInputs() []Input {
 	}
 	return out
 }
+
+// ---------------------------------------------------------------------------
+// round 4: malformed / mismatched / truncated literal blocks
+
+// LiteralHazards: {literal} blocks in both brace forms x bodies (empty, one
+// character, braces, the OTHER form's closer, fragments of the own closer,
+// nested openers) x closers (right form, wrong form, missing, every proper
+// prefix of either closer, closer twice), at file level, in a template, in a
+// block and as an expression.
+func LiteralHazards() []Input {
+	opens := []string{"{literal}", "{{literal}}", "{literal }", "{{literal }}", "{literal", "{{literal}", "{{literal", "{literal}}", "{ literal}", "{literal/}", "{{literal/}}"}
+	closers := []string{"{/literal}", "{{/literal}}"}
+	bodies := []string{"", "x", "{", "}", "{{", "}}", "{}", "/", "\n", "é", "\xff", "{$x}", "{/literal", "/literal}", "literal}}", "{/litera", "{{/literal", "{/literal}}", "{{/literal}",
+		"{literal}", "{{literal}}", "{literal}{/literal}", "{{literal}}{{/literal}}", "{/if}", "{/template}", "// c", "/* c", "'", "\""}
+	var tails []string
+	for _, c := range closers {
+		tails = append(tails, c, c+c, c+"x", c+"}")
+		for i := 0; i < len(c); i++ {
+			tails = append(tails, c[:i]) // missing closer and every truncation of it
+		}
+	}
+	tails = append(tails, "{/literal }", "{ /literal}", "{/Literal}", "{\\literal}", "{/literal/}")
+	var out []Input
+	seen := map[string]bool{}
+	for _, o := range opens {
+		for _, b := range bodies {
+			for _, t := range tails {
+				s := o + b + t
+				if seen[s] {
+					continue
+				}
+				seen[s] = true
+				out = append(out, FileInput("literal/file", s), FileInput("literal/file", hdr+s+"\n{/template}\n"), FileInput("literal/file", hdr+"{if $c}"+s+"{/if}{/template}"),
+					FileInput("literal/file", hdr+s))
+				if strings.HasPrefix(o, "{") && len(out)%5 == 0 {
+					out = append(out, ExprInput("literal/expr", strings.TrimLeft(s, "{")))
+				}
+			}
+		}
+	}
+	return out
+}
